@@ -20,7 +20,11 @@ Legs (DESIGN 3.3):
   spec <-> gcc    (validates Spec/C04Spec.lean and `designate`; a difference is a spec bug -> corr.disagreements)
   code <-> gcc / self-checks  (the property itself -> corr.violations): byte images after a store through a generated
       lvalue, read-back values, values of assignment expressions, whole-struct assignment, pass/return by value,
-      zero fill, VLA / alloca programs with canaries, alignment and overlap probes.
+      zero fill, VLA / alloca programs with canaries, alignment and overlap probes; parameter objects: functions whose
+      parameter lists push parameters of every alignment (long double, 16-aligned and byte-aligned memory structs, small
+      structs that no longer fit the registers) into the stack argument area after odd and even numbers of 8-byte slots —
+      every parameter is dumped through its lvalue, some are stored to, all are dumped again; caller and callee compiled
+      by chibicc against gcc, and across compilers outside the region of known finding C06-ldouble-stack-align.
 """
 import os, json, hashlib, itertools, time, concurrent.futures
 from .framework import *
@@ -1574,6 +1578,192 @@ def leg_chains(ctx, corr, ncases, tagbase='chn', collect=None, tie=True):
         corr.sample({'chain': {'lvalue': allc[-1]['expr'], 'pointer_steps': len(allc[-1]['env']), 'model': model[-1] if model else None}})
     return viol
 
+# ------------------------------------------------------------------ leg I: parameter objects (stack-passed parameters of every alignment after odd / even slots)
+
+PARAM_KINDS = [
+    # (C type, size, align, class: 'gp' | 'fp' | 'mem' | ('regs', [classes of the eightbytes]), struct definition or None)
+    ('char', 1, 1, 'gp', None), ('short', 2, 2, 'gp', None), ('int', 4, 4, 'gp', None), ('long', 8, 8, 'gp', None), ('unsigned char', 1, 1, 'gp', None),
+    ('char *', 8, 8, 'gp', None), ('float', 4, 4, 'fp', None), ('double', 8, 8, 'fp', None), ('long double', 16, 16, 'mem', None),
+    ('struct PA', 16, 8, ('regs', ['gp', 'gp']), 'struct PA { long a; long b; };'),
+    ('struct PB', 16, 8, ('regs', ['fp', 'fp']), 'struct PB { double x; double y; };'),
+    ('struct PC', 16, 8, ('regs', ['fp', 'gp']), 'struct PC { double d; long l; };'),
+    ('struct PD', 8, 4, ('regs', ['gp']), 'struct PD { int a; int b; };'),
+    ('struct PE', 3, 1, ('regs', ['gp']), 'struct PE { char c[3]; };'),
+    ('struct PF', 12, 4, ('regs', ['gp', 'gp']), 'struct PF { int a; int b; int c; };'),
+    ('struct PG', 17, 1, 'mem', 'struct PG { char c[17]; };'),
+    ('struct PH', 24, 8, 'mem', 'struct PH { long a[3]; };'),
+    ('struct PI', 20, 4, 'mem', 'struct PI { int a[5]; };'),
+    ('struct PJ', 32, 16, 'mem', 'struct PJ { _Alignas(16) long a; long b; long c; long d; };'),
+    ('struct PK', 40, 8, 'mem', 'struct PK { char c[33]; short s; int i; };'),
+]
+
+def gen_param_fn(rng, idx):
+    """a function whose parameter list pushes parameters of every alignment into the stack argument area after odd and even
+    numbers of 8-byte slots.  Returns (prototype, definition, call, in_c06_region, n_stack)"""
+    n = rng.choice([3, 5, 7, 8, 9, 10, 11, 12, 14])
+    params = []
+    # bias: first fill one register class, so that later parameters of that class go to the stack
+    fill = rng.choice(['gp', 'fp', 'mix', 'mem'])
+    for i in range(n):
+        r = rng.random()
+        if fill == 'gp' and i < 7 and r < 0.8:
+            k = rng.choice([x for x in PARAM_KINDS if x[3] == 'gp'])
+        elif fill == 'fp' and i < 9 and r < 0.8:
+            k = rng.choice([x for x in PARAM_KINDS if x[3] == 'fp'])
+        elif fill == 'mem' and r < 0.5:
+            k = rng.choice([x for x in PARAM_KINDS if x[3] == 'mem'])
+        else:
+            k = rng.choice(PARAM_KINDS)
+        params.append(k)
+    gp = fp = 0
+    slots = 0                  # 8-byte slots of the stack argument area used so far (chibicc packs; the psABI additionally aligns)
+    region = False
+    nstack = 0
+    for (t, sz, al, cls, _) in params:
+        on_stack = False
+        if cls == 'gp':
+            if gp < 6: gp += 1
+            else: on_stack = True
+        elif cls == 'fp':
+            if fp < 8: fp += 1
+            else: on_stack = True
+        elif cls == 'mem':
+            on_stack = True
+        else:
+            need_gp, need_fp = cls[1].count('gp'), cls[1].count('fp')
+            if gp + need_gp <= 6 and fp + need_fp <= 8:
+                gp += need_gp; fp += need_fp
+            else:
+                on_stack = True
+        if on_stack:
+            nstack += 1
+            if al == 16 and slots % 2 == 1:
+                region = True          # known finding C06-ldouble-stack-align: callers of other compilers put it 8 bytes higher
+            slots += (sz + 7) // 8
+    names = [f'p{i}' for i in range(n)]
+    proto = f'void pf{idx}({", ".join(t + " " + nm for (t, *_), nm in zip(params, names))})'
+    def val(k, i, salt):
+        t, sz, al, cls, sd = k
+        v = (idx * 131 + i * 17 + salt * 7) % 97 + 1
+        if sd is not None:
+            return f'mk_{t.split()[1]}({v})'
+        if t == 'char *':
+            return f'(char *)(unsigned long){v * 1000 + 7}'
+        if t in ('float', 'double'):
+            return f'{v}.5'
+        if t == 'long double':
+            return f'{v}.25L'
+        return str(v)
+    body = []
+    def dumps(tag):
+        for (t, sz, *_), nm in zip(params, names):
+            body.append(f'  pdump("pf{idx} {tag} {nm}", &{nm}, {10 if t == "long double" else sz});')
+    dumps('in')
+    # store through every parameter lvalue in turn; the others must keep their bytes
+    order = list(range(n))
+    rng.shuffle(order)
+    for i in order[:4]:
+        body.append(f'  {names[i]} = {val(params[i], i, 1)};')
+    dumps('st')
+    definition = proto + ' {\n' + '\n'.join(body) + '\n}\n'
+    call = f'pf{idx}({", ".join(val(k, i, 0) for i, k in enumerate(params))});'
+    return proto + ';', definition, call, region, nstack, ', '.join(k[0] for k in params)
+
+def leg_params(ctx, corr, nfn, tagbase='prm', collect=None, tie=True):
+    rng = ctx.rng
+    viol = []
+    per = 25
+    sdefs = [k[4] for k in PARAM_KINDS if k[4]]
+    mk = ''.join(f'static {k[0]} mk_{k[0].split()[1]}(int v) {{ {k[0]} r; memset(&r, v, sizeof r); ((char *)&r)[0] = v + 1; return r; }}\n' for k in PARAM_KINDS if k[4])
+    hdr = ('#include <stdio.h>\n#include <string.h>\n' + '\n'.join(sdefs) + '\n'
+           'void pdump(const char *k, const void *p, int n);\n')
+    for base in range(0, nfn, per):
+        fns = [gen_param_fn(rng, i) for i in range(base, min(nfn, base + per))]
+        def program(sel):
+            return (hdr + mk + ''.join(f[0] + '\n' for f in sel) +
+                    '#ifdef CALLEE\nvoid pdump(const char *k, const void *p, int n) { const unsigned char *b = p; printf("%s ", k); for (int i = 0; i < n; i++) printf("%02x", b[i]); printf("\\n"); }\n' +
+                    ''.join(f[1] for f in sel) + '#endif\n#ifdef CALLER\nint main(void) {\n' + ''.join('  ' + f[2] + '\n' for f in sel) + '  return 0;\n}\n#endif\n')
+        src = program(fns)
+        path = write(ctx, f'{tagbase}{base}.c', src)
+        def build(tag, cc_caller, cc_callee, path=path):
+            exe = os.path.join(ctx.scratch, f'{tagbase}{base}.{tag}.exe')
+            def cmd(which, extra):
+                return ([ctx.cc] if which == 'c' else ['gcc', '-std=gnu11', '-w', '-O0']) + extra
+            if cc_caller == cc_callee:
+                rc, o, e = sh(cmd(cc_caller, ['-DCALLER', '-DCALLEE', '-o', exe, path]), timeout=300)
+                if rc != 0:
+                    return False, 'compile: ' + (e or o)[-800:]
+            else:
+                o1, o2 = exe + '.caller.o', exe + '.callee.o'
+                for which, d, out in ((cc_caller, '-DCALLER', o1), (cc_callee, '-DCALLEE', o2)):
+                    rc, o, e = sh(cmd(which, ['-c', d, '-o', out, path]), timeout=300)
+                    if rc != 0:
+                        return False, f'compile {d}: ' + (e or o)[-800:]
+                rc, o, e = sh(['gcc', '-o', exe, o1, o2], timeout=300)
+                if rc != 0:
+                    return False, 'link: ' + (e or o)[-800:]
+            rc, o, e = sh([exe], timeout=120)
+            if rc != 0:
+                return False, f'run: rc={rc} ' + (e or o)[-300:]
+            return True, o.splitlines()
+        fg = POOL2.submit(build, 'gg', 'g', 'g')
+        fc = POOL2.submit(build, 'cc', 'c', 'c')
+        (gok, gout), (cok, cout) = fg.result(), fc.result()
+        if not gok:
+            raise RuntimeError('gcc rejects / fails a generated parameter program: ' + str(gout)[-400:])
+        def by_fn(lines):
+            d = {}
+            for l in lines:
+                d.setdefault(l.split()[0], []).append(l)
+            return d
+        def one(f, cc_caller, cc_callee):
+            p1 = write(ctx, f'{tagbase}{base}_one.c', program([f]))
+            return p1
+        gd = by_fn(gout)
+        cd = by_fn(cout) if cok else {}
+        for f in fns:
+            name = f[0].split('(')[0].split()[-1]
+            corr.evaluations += 1
+            corr.count('params-self' + ('-stack16odd' if f[3] else ''))
+            if f[4]:
+                corr.nontrivial.add('params:' + f[5])
+            g, ch = gd.get(name, []), cd.get(name, [])
+            if g != ch:
+                diffl = [(a, b) for a, b in zip(g, ch) if a != b][:4]
+                v = {'what': 'parameter objects: the bytes the callee reads through a parameter lvalue (or keeps after a store to another parameter) are not the '
+                             'bytes the caller passed (caller and callee both compiled by chibicc; reference: gcc)',
+                     'input': {'signature': f[0], 'call': f[2], 'stack_parameters': f[4]}, 'expected': [a for a, _ in diffl] or g[:4], 'got': [b for _, b in diffl] or (ch[:4] if cok else cout),
+                     'program': '#define CALLER\n#define CALLEE\n' + program([f])}
+                corr.violations.append(v); viol.append(v)
+                if collect is None:
+                    return viol
+        # across compilers, outside the regions of the C06 known findings (a 16-aligned stack argument after an odd number of slots)
+        elig = [f for f in fns if not f[3]]
+        corr.count('skipped_known_c06_ldouble_stack_align', len(fns) - len(elig))
+        if elig and cok:
+            xsrc = program(elig)
+            xpath = write(ctx, f'{tagbase}{base}x.c', xsrc)
+            f1 = POOL2.submit(build, 'gc', 'g', 'c', xpath)
+            f2 = POOL2.submit(build, 'cg', 'c', 'g', xpath)
+            for tag, (ok, out) in (('gcc caller, chibicc callee', f1.result()), ('chibicc caller, gcc callee', f2.result())):
+                xd = by_fn(out) if ok else {}
+                for f in elig:
+                    name = f[0].split('(')[0].split()[-1]
+                    corr.evaluations += 1
+                    corr.count('params-cross')
+                    if gd.get(name, []) != xd.get(name, []):
+                        g = gd.get(name, [])
+                        diffl = [(a, b) for a, b in zip(g, xd.get(name, [])) if a != b][:4]
+                        v = {'what': f'parameter objects across compilers ({tag}): the callee does not find the argument bytes where the caller put them',
+                             'input': {'signature': f[0], 'call': f[2], 'stack_parameters': f[4]}, 'expected': [a for a, _ in diffl] or g[:4],
+                             'got': [b for _, b in diffl] or (out if not ok else xd.get(name, [])[:4]), 'program': '#define CALLER\n#define CALLEE\n' + program([f])}
+                        corr.violations.append(v); viol.append(v)
+                        if collect is None:
+                            return viol
+                        break
+    corr.sample({'params': {'signature': fns[-1][0], 'stack_parameters': fns[-1][4]}})
+    return viol
+
 # ------------------------------------------------------------------ corpus and known findings
 
 def leg_corpus(ctx, corr):
@@ -1625,7 +1815,10 @@ def correspond(ctx, corr):
                  'against X86.run (bit-field triples x buffers x values, _Bool stores, overlapping and disjoint struct copies); text of _Bool stores, '
                  'struct store / push_struct / copy_struct_mem loops against chibicc -S; stores to _Bool lvalues of every form from every scalar type '
                  'against gcc; chains a.b[i].c->d through up to three pointers, unions, anonymous members and flexible array members: offset, size and '
-                 'the exact set of changed bytes against gcc and the path model (designate, gen_addr, pathOk, enclosing object, offset sum).')
+                 'the exact set of changed bytes against gcc and the path model (designate, gen_addr, pathOk, enclosing object, offset sum); '
+                 'parameter objects of functions with 3-14 parameters mixing register classes, long double, memory structs of alignment 1/4/8/16 '
+                 'and small structs: bytes read through every parameter lvalue before and after stores to other parameters (chibicc/chibicc vs '
+                 'gcc/gcc, and gcc/chibicc, chibicc/gcc outside the C06 long-double stack-alignment region).')
     t0 = time.time()
     def lap(name):
         nonlocal t0
@@ -1668,6 +1861,10 @@ def correspond(ctx, corr):
     lap('frames')
     if [v for v in corr.violations if not v.get('known_id')] or corr.disagreements:
         return
+    leg_params(ctx, corr, 400 if not T else 4000)
+    lap('params')
+    if [v for v in corr.violations if not v.get('known_id')] or corr.disagreements:
+        return
     leg_alloca(ctx, corr, 600 if not T else 6000)
     lap('alloca')
     leg_known(ctx, corr)
@@ -1678,7 +1875,7 @@ def correspond(ctx, corr):
 def search(ctx, broken, corr):
     """a proof / the translator / a tie broke and the standard run saw no violation: run the behavioural legs at larger size"""
     c2 = Corr()
-    for leg, n in ((leg_bf_behaviour, 1500), (leg_aggregates, 1000), (leg_boolstore, 600), (leg_chains, 600), (leg_frames, 240), (leg_alloca, 160)):
+    for leg, n in ((leg_bf_behaviour, 1500), (leg_aggregates, 1000), (leg_boolstore, 600), (leg_chains, 600), (leg_frames, 240), (leg_params, 300), (leg_alloca, 160)):
         try:
             v = leg(ctx, c2, n, tagbase='srch_' + leg.__name__[4:7], collect=[], tie=False)
         except Exception as e:
